@@ -163,11 +163,11 @@ def fmt_handle(ctx, stats):
             stats["toosmall" if cap < need else "grey_fail"] += 1; return
         got = None if out == "!" else unhex(out)
         if got not in alts:         # success with a text that is not the expected one (whatever the capacity)
-            if op == "fp" and c["port"] in POW10:
-                key = "sa_addr_port_to_str:port-power-of-ten"
-            elif op == "fp" and fam == "6" and got is not None and text.find(b"]") > 0 and \
+            if op == "fp" and fam == "6" and got is not None and text.find(b"]") > 0 and \
                     got == text[:text.find(b"]") - 1] + text[text.find(b"]"):]:
                 key = "sa_addr_port_to_str:inet6:drops-char-before-bracket"
+            elif op == "fp" and c["port"] in POW10:
+                key = "sa_addr_port_to_str:port-power-of-ten"
             else:
                 key = "%s:%s:wrong-text" % (fn, FAMNAME[fam])
             ctx.fail(key, "case %s\nexpected text %r\ngot           %r   (%s)" % (line, text, got, a), rp); return
